@@ -33,7 +33,7 @@ var c11 = core.Register(&core.Prop{
 	Shards: func(tier string) int { return pickTier(tier, 8, 16) },
 	Floors: func(c map[string]int64, tier string) []string {
 		var out []string
-		for _, k := range []string{"calls_expected", "rejects_expected", "variadic_sigs", "spread_calls", "spread_rejects", "context_sigs", "returned_errors", "returned_numbers", "order_checked", "builtin_calls", "reject:count", "reject:conversion", "shared_tree_pairs", "size_cases", "preserve_cases", "returned_error_cases"} {
+		for _, k := range []string{"calls_expected", "rejects_expected", "variadic_sigs", "spread_calls", "spread_rejects", "context_sigs", "returned_errors", "returned_numbers", "order_checked", "builtin_calls", "reject:count", "reject:conversion", "shared_tree_pairs", "size_cases", "preserve_cases", "returned_error_cases", "returned_number_cases"} {
 			if c[k] == 0 {
 				out = append(out, "coverage floor: no "+k)
 			}
